@@ -55,8 +55,7 @@ def expectedExtend : List String := [
 /-- one atomic step of thread `t`; `none` = not enabled (waiting for the lock / not in a call) -/
 def tstep (C : Nat) (t : Nat) (sh : Sh) : Pc → Option (Sh × Pc)
   | .idle => none
-  | .start _ 0 => some (sh, .panicked)
-  | .start n (r + 1) => some (sh, .loaded n r sh.a)
+  | .start n r => if r = 0 then some (sh, .panicked) else some (sh, .loaded n (r - 1) sh.a)
   | .loaded n r ac => some ({ sh with size := sh.size + n }, .added n r ac (sh.size + n))
   | .added n r ac new =>
     if (new - 1) / C = ac then some ({ sh with ret := (ac, new, n) :: sh.ret }, .returned (new - n) n)
